@@ -45,14 +45,17 @@ LEVEL_NOTE = (
 PREIMPORT = ("pharmpy.model", "pharmpy.modeling")
 RULE = (
     "A: initial states = all set partitions of n variables into blocks x level assignments {IIV,IOV,RUV} per "
-    "block (all for small n, 3 patterns otherwise) x entry styles {all symbols, numeric with non-zero means, "
+    "block (all for small n, 4 patterns otherwise) x entry styles {all symbols, numeric with non-zero means, "
     "symbols with structural zeros and symbolic means} plus parameter-sharing (IOV-like) states; transitions = "
     "join(S) for every same-level subset S (default, fill symbol, fill number, name_template), unjoin(S) for "
     "every subset, selection by every subset (list/tuple/set/symbols), every slice, + (distribution, joint, "
     "RandomVariables, list, radd), subs (parameter rename, variable rename, parameter->number); states merged by "
     "canonical key; a case is non-trivial when the operation was accepted and >= 1 value was compared. "
     "B: all symmetric n x n matrices over the value grid. C: all exactly positive definite members. "
-    "D: one model per PD member x layout, corpus models and their create/split_joint_distribution successors"
+    "D: one model per PD member x layout {block only, free single eta first, fixed single eta first, shared-variance "
+    "IOV etas after} with 4 bounded/unbounded thetas and a fixed theta; corpus models (read from their text) and "
+    "their create_joint_distribution / split_joint_distribution / remove_iiv successors; the corpus models' own "
+    "random variables are also used as initial states of A"
 )
 ASSUMPTIONS = [
     "joins across variability levels are executed and counted but not judged (the property is silent)",
@@ -64,10 +67,14 @@ ASSUMPTIONS = [
     "a repaired (previously invalid) matrix is PSD when its smallest eigenvalue (eigvalsh) is >= -1e-12*max(1,|A|)",
 ]
 BOUNDS = {
-    "quick": "A: n<=5 variables depth 1, n<=4 depth 2; B: all 2x2 and 3x3 over {0,+-1/2,1,2} (15750 matrices), "
-             "model-level create/replace on all of them; C/D: all PD members; corpus: 29 model files",
-    "thorough": "A: n<=6 depth 1, n<=5 depth 2, n<=4 depth 3; B: additionally all 4x4 over {0,+-1/2,1}; "
-                "C/D: all PD members incl. 4x4; corpus: 29 model files",
+    "quick": "A: all partitions of n<=5 variables; level assignments: all 3^k for n<=3, 4 patterns for n=4,5; 3 entry "
+             "styles; depth 2 for n<=3 and for n=4 (symbolic styles, all-IIV / alternating levels), depth 1 otherwise; "
+             "3 parameter-sharing states depth 2; corpus random variables depth 1. B: all 2x2 and 3x3 symmetric "
+             "matrices over {0,+-1/2,1,2} (15750) through internals.math, RandomVariables and Model.create/replace. "
+             "C/D: all 791 positive definite members (x4 model layouts for D); 30 corpus files x <=8 successors",
+    "thorough": "A: n<=6; all 3^k level assignments for n<=4; depth 3 for n<=3 and n=4 (main styles), depth 2 for n=4 "
+                "(rest) and n=5 (main styles), depth 1 otherwise. B: additionally all 4x4 matrices over {0,+-1/2,1} "
+                "(1048576) through internals.math; C/D on every positive definite member incl. 4x4; corpus as quick",
 }
 
 VARS = ("r1", "r2", "r3", "r4", "r5", "r6")  # single letters collide with sympy constants (e -> E)
@@ -459,10 +466,7 @@ def observe_dist_items(d, ref, lev, ns):
     return fails, n
 
 
-_VALIDATED = {}
-
-
-def step(rvs, ref, op):
+def step(rvs, ref, op, cache=None):
     """Apply one operation to the real object and to the reference.
 
     -> dict(status, fails, rvs, ref, compared).  status: ok | refused | internal_error | unjudged
@@ -607,17 +611,15 @@ def step(rvs, ref, op):
     # observables are functions of the object's value: an equal object already compared with an
     # identical reference state need not be compared again
     k = ref2.key()
-    prev = _VALIDATED.get(k)
+    prev = cache.get(k) if cache is not None else None
     if prev is not None and prev == res:
         compared += 1
     else:
         f2, n2 = check_state(res, ref2)
         fails.extend(f2)
         compared += n2
-        if not f2:
-            if len(_VALIDATED) > 20000:
-                _VALIDATED.clear()
-            _VALIDATED[k] = res
+        if not f2 and cache is not None:
+            cache[k] = res
     return {"status": "ok", "fails": fails, "rvs": res, "ref": ref2, "compared": compared,
             "blocks": [list(x) for x in blocks]}
 
@@ -659,13 +661,25 @@ def bump(res, label, k=1):
 
 
 def add_violation(res, w):
-    if len(res["violations"]) < 300:
+    """keep at most 40 witnesses per (failure class, triage pattern) and shard, so that a flood of one
+    finding can never crowd out a different one"""
+    try:
+        pat = classify(w)
+    except Exception:
+        pat = None
+    k = f"{w.get('class')}|{pat}"
+    cnt = res.setdefault("_vcount", {})
+    cnt[k] = cnt.get(k, 0) + 1
+    if cnt[k] <= 40:
         res["violations"].append(w)
 
 
-def search(res, init_desc, ref0, maxdepth, maxvars):
-    """BFS from one initial state; visited set local to this initial state."""
-    rvs0 = build(ref0)
+def search(res, init_desc, ref0, maxdepth, maxvars, rvs0=None):
+    """BFS from one initial state; visited set (and the cache of already compared equal objects)
+    local to this initial state, so that all counts are independent of shard scheduling."""
+    cache = {}
+    if rvs0 is None:
+        rvs0 = build(ref0)
     f0, n0 = check_state(rvs0, ref0)
     res["states"] += 1
     res["evaluations"] += n0
@@ -683,7 +697,7 @@ def search(res, init_desc, ref0, maxdepth, maxvars):
                 add_violation(res, {"part": "A", "init": init_desc, "ops": path, "class": "A:" + cls, "observe": True,
                                     "what": f"[{fmt_ref(ref0)}] {' ; '.join(fmt_op(o) for o in path)}: {text}"})
             for op in op_menu(ref, depth, maxvars):
-                out = step(rvs, ref, op)
+                out = step(rvs, ref, op, cache)
                 res["transitions"] += 1
                 res["evaluations"] += out["compared"]
                 st = out["status"]
@@ -732,7 +746,8 @@ def init_descs(tier):
                 for style in STYLES:
                     if n >= 5 and style == "num" and levels != ["IIV"] * len(blocks):
                         continue
-                    main = style == "sym" and (levels == ["IIV"] * len(blocks) or pi == 1)
+                    alliiv = levels == ["IIV"] * len(blocks)
+                    main = (style == "sym" and (alliiv or pi == 1)) or (style == "symz" and alliiv)
                     if tier == "quick":
                         depth = 2 if n <= 3 or (n == 4 and main) else 1
                     else:
@@ -793,7 +808,7 @@ def check_matrix(n, vals, level):
 
     from pharmpy.internals.math import is_positive_semidefinite, nearest_positive_semidefinite
 
-    from vlib.c11_ref import close, higham_nearest_psd, is_pd_exact, is_psd_exact, lower_positions, min_eig, sym_from_lower
+    from vlib.c11_ref import higham_nearest_psd, is_psd_exact, lower_positions, min_eig, sym_from_lower
 
     fails = []
     labels = []
@@ -1156,6 +1171,64 @@ def corpus_files():
     return out
 
 
+def ref_from_real(rvs):
+    """Reference state read off a real RandomVariables object (corpus models); None when an entry is
+    neither a symbol nor a number."""
+    from vlib.c11_ref import Ref
+
+    def tok(x):
+        if x.is_symbol():
+            return ("s", x.name)
+        try:
+            v = float(x)
+        except Exception:
+            return None
+        return ("n", int(v) if v == int(v) else v)
+
+    blocks, mean, cov = [], {}, {}
+    for d in rvs:
+        ns = tuple(d.names)
+        blocks.append((str(d.level), ns))
+        joint = hasattr(d.variance, "rows")
+        for i, a in enumerate(ns):
+            m = tok(d.mean[i] if joint else d.mean)
+            if m is None:
+                return None
+            mean[a] = m
+            for j, b in enumerate(ns):
+                e = tok(d.variance[i, j] if joint else d.variance)
+                if e is None:
+                    return None
+                cov[(a, b)] = e
+    return Ref(blocks, mean, cov)
+
+
+def corpus_model(relpath):
+    from vlib import core
+
+    from pharmpy.modeling import read_model_from_string
+
+    # from the text: the data set is not needed here (and several do not load under pandas 3)
+    with open(os.path.join(core.REPO, relpath), encoding="latin-1") as fh:
+        return read_model_from_string(fh.read())
+
+
+def corpus_algebra(res, model, relpath):
+    """part A, depth 1, on the model's own random variables"""
+    rvs = model.random_variables
+    ref0 = ref_from_real(rvs)
+    if ref0 is None:
+        bump(res, "corpus:A-skipped-expression-entries")
+        return
+    if not 1 <= len(ref0.names()) <= 6 or set(ref0.names()) & {NEWV[0], NEWV[1], RENV}:
+        bump(res, "corpus:A-skipped-size")
+        return
+    if any(lev not in LEVELS for lev, _ in ref0.blocks):
+        bump(res, "corpus:A-skipped-levels")
+        return
+    search(res, {"file": relpath}, ref0, 1, 7, rvs0=rvs)
+
+
 def check_model_blocks(res, model, base, text):
     """every covariance block is PSD under the initial estimates"""
     for names, A in blocks_of_model(model):
@@ -1172,19 +1245,15 @@ def check_model_blocks(res, model, base, text):
 
 
 def run_corpus(res, relpath):
-    from vlib import core
+    from pharmpy.modeling import create_joint_distribution, remove_iiv, split_joint_distribution
 
-    from pharmpy.modeling import create_joint_distribution, read_model_from_string, split_joint_distribution
-
-    path = os.path.join(core.REPO, relpath)
     try:
-        # from the text: the data set is not needed here (and several do not load under pandas 3)
-        with open(path, encoding="latin-1") as fh:
-            model = read_model_from_string(fh.read())
+        model = corpus_model(relpath)
     except Exception as ex:
         bump(res, f"corpus:unreadable:{type(ex).__name__}")
         return
     res["states"] += 1
+    corpus_algebra(res, model, relpath)
     base = {"file": relpath, "succ": None}
     check_model_blocks(res, model, base, relpath)
     ucp_case(res, model, base, relpath)
@@ -1225,6 +1294,9 @@ def run_corpus(res, relpath):
     succ.append(("split_joint_distribution(all)", lambda m: split_joint_distribution(m)))
     if iiv:
         succ.append((f"split_joint_distribution({iiv[-1]})", lambda m: split_joint_distribution(m, iiv[-1])))
+        succ.append((f"remove_iiv({iiv[0]})", lambda m: remove_iiv(m, iiv[0])))
+        if len(iiv) > 1:
+            succ.append((f"remove_iiv({iiv[-1]})", lambda m: remove_iiv(m, iiv[-1])))
     for name, fn in succ:
         res["transitions"] += 1
         try:
@@ -1277,10 +1349,10 @@ def shards(tier):
     def weight(d):  # rough number of transitions (measured: n=5 depth 1 ~210, n=4 depth 2 ~5400)
         n, depth = d[0], d[4]
         w = 7 * 2 ** n
-        if depth >= 2:
-            w *= 3 * 2 ** n
+        if depth == 2:
+            w *= min(3 * 2 ** n, 45)
         if depth >= 3:
-            w *= 2 ** n
+            w *= 40 * 2 ** n
         return w
 
     descs = sorted(descs, key=lambda d: -weight(d))
@@ -1391,7 +1463,12 @@ def run_matrices(res, n, grid, prefix, npos, level):
                      f"omega block {sym_from_lower(n, vals)} layout {layout}/{sigma}")
         if len(res["samples"]) < 1:
             res["samples"].append(f"matrix {sym_from_lower(n, vals)} (PD): repair, conversions, UCP")
-    # one dedicated negative-sigma model per shard start is not needed: negative entries occur in the grid
+
+
+def post(tot, tier):
+    """make the merged lists independent of the order in which shards finished"""
+    tot["samples"].sort(key=str)
+    tot["violations"].sort(key=lambda w: (len(w.get("what", "")), w.get("what", "")))
 
 
 # ----------------------------------------------------------------------------- replay / classify
@@ -1404,11 +1481,15 @@ def replay(w):
     res = new_result()
     if part == "A":
         init = w["init"]
-        if "ref" in init:
+        if "file" in init:
+            rvs = corpus_model(init["file"]).random_variables
+            ref = ref_from_real(rvs)
+        elif "ref" in init:
             ref = ref_from_json(init["ref"])
+            rvs = build(ref)
         else:
             ref = init_ref(init["n"], init["blocks"], init["levels"], init["style"])
-        rvs = build(ref)
+            rvs = build(ref)
         ops = [list(o) for o in w["ops"]]
         if not ops or w.get("observe"):
             for op in ops:
@@ -1485,7 +1566,14 @@ def _classify_roundoff(w):
     dev = w.get("dev")
     if dev is None or not dev <= 1e-12:
         return None
-    return "singular_psd_matrix_misjudged_by_eig_roundoff"
+    # the cause named by the pattern: the general eigenvalue solver returns the zero eigenvalue of this
+    # exactly singular matrix as a negative (or complex) number
+    import numpy as np
+
+    ev = np.linalg.eig(np.array([[float(x) for x in row] for row in A]))[0]
+    if np.iscomplexobj(ev) and np.any(ev.imag != 0) or np.any(ev.real < 0):
+        return "singular_psd_matrix_misjudged_by_eig_roundoff"
+    return None
 
 
 def _classify_ucp(w):
